@@ -133,8 +133,7 @@ def chibicc_S(src_text, name="t", extra=(), builddir=None, want_rc=False):
 # CBMC
 # ----------------------------------------------------------------------------------------
 CBMC_STD = ["--unwinding-assertions", "--signed-overflow-check", "--undefined-shift-check",
-            "--div-by-zero-check", "--drop-unused-functions", "--no-malloc-may-fail",
-            "--no-built-in-assertions"]
+            "--div-by-zero-check", "--drop-unused-functions", "--no-malloc-may-fail"]
 
 
 class CbmcResult:
@@ -185,7 +184,8 @@ def cbmc(gb, function, unwind=None, unwindset=(), flags=(), timeout=600, std=Tru
     r = CbmcResult()
     work = gb
     if replace_calls:
-        work = gb + ".rc.gb"
+        import threading
+        work = "%s.%s.%x.rc.gb" % (gb, re.sub(r"\W", "_", function), threading.get_ident() & 0xffffff)
         cmd = ["goto-instrument"]
         for rc_ in replace_calls:
             cmd += ["--replace-calls", rc_]
@@ -230,6 +230,11 @@ def cbmc(gb, function, unwind=None, unwindset=(), flags=(), timeout=600, std=Tru
             cprover_status = m["cProverStatus"]
         if m.get("messageType") == "ERROR":
             errors.append(m.get("messageText", ""))
+    if replace_calls:
+        try:
+            os.remove(work)
+        except OSError:
+            pass
     if result is None:
         r.detail = "no result (rc=%s): %s" % (rc, " | ".join(errors)[-1500:] or (o + e)[-800:])
         return r
